@@ -74,23 +74,29 @@ fn forged_case(ctx: &mut Ctx, idx: usize, rp: &RangeConstraintParameters, rpd: &
         return;
     }
     let c = nonzero(&mut ctx.prng);
+    // the position under attack cycles through all nine digits (kind / 8), so every digit proof — the most
+    // significant one included — is the only defective one in some case
+    let pos = (kind / 8) % 9;
+    let kind = kind % 8;
     // digit values claimed and signature indices used
     let mut digits: Vec<Scalar> = (0..9).map(|_| Scalar::from(ctx.prng.gen_range(0..128u64))).collect();
     let mut sig_idx: Vec<usize> = vec![];
     let label;
-    match kind % 6 {
+    match kind {
         0 => { digits = vec![Scalar::from(127u64); 9]; label = "all-maximal-digits"; }
         1 => { label = "published-signatures-any-digits"; }
-        2 => { let j = ctx.prng.gen_range(0..9); digits[j] = Scalar::from(ctx.prng.gen_range(128..100000u64)); label = "digit-out-of-range"; }
-        3 => { let j = ctx.prng.gen_range(0..9); digits[j] = -Scalar::from(ctx.prng.gen_range(1..1000u64)); label = "negative-digit"; }
+        2 => { digits[pos] = Scalar::from(if ctx.prng.gen_range(0..3) == 0 { 128 } else { ctx.prng.gen_range(128..100000u64) }); label = "digit-out-of-range"; }
+        3 => { digits[pos] = -Scalar::from(ctx.prng.gen_range(1..1000u64)); label = "negative-digit"; }
         4 => { label = "signature-for-another-digit"; }
-        _ => { label = "swapped-digits"; }
+        5 => { label = "swapped-digits"; }
+        6 => { label = "one-digit-response-shifted-link-adjusted"; }
+        _ => { label = "one-digit-signature-altered"; }
     }
     for (j, d) in digits.iter().enumerate() {
         let b = d.to_bytes();
         let small = b[1..].iter().all(|x| *x == 0) && b[0] < 128;
         let mut i = if small { b[0] as usize } else { ctx.prng.gen_range(0..128) };
-        if kind % 6 == 4 && j == 3 {
+        if kind == 4 && j == pos {
             i = (i + 1 + ctx.prng.gen_range(0..126)) % 128;
         }
         sig_idx.push(i);
@@ -106,10 +112,21 @@ fn forged_case(ctx: &mut Ctx, idx: usize, rp: &RangeConstraintParameters, rpd: &
             None => { ctx.broken("model prover did not answer"); return; }
         }
     }
+    if kind == 6 {
+        // the digit's response scalar moved by c·d (as if the digit were larger), the link recomputed to match:
+        // only that digit's own proof is now wrong
+        let d = Scalar::from(1 + ctx.prng.gen_range(0..1000u64));
+        proofs[pos].cp.zs[0] += c * d;
+        all_match = false;
+    }
+    if kind == 7 {
+        if ctx.prng.gen_range(0..2) == 0 { proofs[pos].s2 += Scalar::one(); } else { proofs[pos].cp.t += Scalar::one(); }
+        all_match = false;
+    }
     let zs: Vec<Scalar> = proofs.iter().map(|p| p.cp.zs[0]).collect();
     let expected = weighted(&zs);
-    let _ = range_verify_check(ctx, rp, rpd, &proofs, &c, &expected, Some(all_match), label);
-    if kind % 6 == 5 {
+    let _ = range_verify_check(ctx, rp, rpd, &proofs, &c, &expected, Some(all_match), &format!("{}{}", label, if matches!(kind, 2 | 3 | 4 | 6 | 7) { format!("@digit-{}", pos) } else { String::new() }));
+    if kind == 5 {
         // swap two digit proofs: verifies only against the swapped weighted sum
         let mut sw = proofs.clone();
         sw.swap(0, 8);
@@ -136,6 +153,12 @@ fn validate_check(ctx: &mut Ctx, rpd: &RpD, expect: Option<bool>, what: &str) {
 }
 
 pub fn run(ctx: &mut Ctx) {
+    // which digits carry a signature under a freshly generated range key (hypothesis DigitUnforgeable of range_sound_value)
+    if ctx.shard == 0 && ctx.begin_case(100_000, "generated-range-parameters") {
+        let mut rng = crate::rng::ScriptedRng::new(ctx.prng.gen(), ctx.book.clone());
+        let rp = RangeConstraintParameters::new(&mut rng);
+        let _ = published_digits_audit(ctx, &wire::ser(&rp));
+    }
     let (rp, rpd, _x, _y) = rp_decoded(ctx);
     let (rp2, rpd2, _, _) = rp_decoded(ctx);
     let mut idx = 0usize;
@@ -166,7 +189,7 @@ pub fn run(ctx: &mut Ctx) {
         }
     }
     // C: attacker-assembled constraints
-    let n = if ctx.thorough() { 120 } else { 24 };
+    let n = if ctx.thorough() { 4 * 72 } else { 72 };
     for k in 0..n {
         idx += 1;
         forged_case(ctx, idx, &rp, &rpd, k);
